@@ -1784,6 +1784,8 @@ pub mod internal {
     pub use crate::analyze::analyze;
     pub use crate::compile::compile;
     pub use crate::vm::{run_default, run_trace, Insn, Prog};
+    #[cfg(fancy_regex_verif)]
+    pub use crate::vm::verif_hooks;
 }
 
 #[cfg(test)]
